@@ -50,6 +50,14 @@ def entries():
 
 def try_replay(pid, failure):
     out = []
+    if failure.unit.startswith("kani/"):
+        # Kani gives a concrete counterexample: ask for the playback unit test of the failing harness
+        from . import kani as kani_mod
+        test, cmd = kani_mod.concrete_playback(failure.unit.split("/", 1)[1], failure.fn)
+        if test:
+            return ("counterexample from the verifier (Kani concrete playback; the harness runs the real crate code):\n"
+                    f"command: {cmd}\n" + test)
+        return ""
     for e in entries():
         if e.get("unit") != failure.unit or e.get("fn") != failure.fn or e.get("kind") != failure.kind:
             continue
